@@ -75,21 +75,28 @@ extern ssize_t mpt_encode_string(MPT_STRUCT(encode_state) *info, const struct io
 		if (!(base)[off-1]) {
 			--off;
 		}
-		while (len--) {
+		while (1) {
 			struct iovec tmp;
 			ssize_t pos;
 			
 			tmp.iov_base = base;
 			tmp.iov_len  = off;
 			
-			/* find message separator */
-			if ((pos = mpt_memrchr(&tmp, 1, info->_ctx)) >= 0) {
-				off = pos;
-				continue;
+			/* message starts behind previous separator */
+			pos = mpt_memrchr(&tmp, 1, info->_ctx);
+			off = (pos < 0) ? 0 : pos + 1;
+			
+			if (!--len) {
+				break;
 			}
-			return MPT_ERROR(MissingData);
+			/* no further message */
+			if (!off) {
+				return MPT_ERROR(MissingData);
+			}
+			/* skip separator of previous message */
+			--off;
 		}
-		info->done -= off;
+		info->done = off;
 		
 		return off;
 	}
